@@ -892,8 +892,18 @@ func c05RoundTrip(kind string, seed uint64, mode int) (string, *Violation) {
 	if merr != nil {
 		return "marshal-error", &Violation{Signature: "json-marshal-error-" + kind, Text: merr.Error()}
 	}
-	if merr2 != nil || !bytes.Equal(data, data2) {
-		return "value-form", &Violation{Signature: "json-value-form-" + kind, Text: fmt.Sprintf("a %s value marshals differently from a pointer to it (%v):\nvalue:   %s\npointer: %s", kind, merr2, truncate(string(data2), 300), truncate(string(data), 300))}
+	if merr2 != nil {
+		return "marshal-error", &Violation{Signature: "json-marshal-error-by-value-" + kind, Text: merr2.Error()}
+	}
+	if !bytes.Equal(data, data2) {
+		// the by-value text differs from the by-pointer one: what the property asks of it is that it decodes back
+		// to an equal value (a different text as such is not a violation)
+		back2 := c04Fresh(kind)
+		var uerr2 error
+		c05WithCodec(mode, func() { uerr2 = json.Unmarshal(data2, back2) })
+		if uerr2 != nil || !c05Equal(v, back2) {
+			return "value-form", &Violation{Signature: "json-roundtrip-differs-by-value-" + kind, Text: fmt.Sprintf("a %s marshalled by value (not through a pointer) does not decode back to an equal value (%v):\nby value:   %s\nby pointer: %s", kind, uerr2, truncate(string(data2), 300), truncate(string(data), 300))}
+		}
 	}
 	// shape
 	if kind == "osm" || kind == "change" {
